@@ -225,8 +225,6 @@ theorem poly0_ct_e (p : Poly0 K) (x : K) : (p.ctRun M x).e = Evaluate.evaluate p
 theorem poly0_ct_a (p : Poly0 K) (x : K) : (p.ctRun M x).a = p.evalRounded M x := rfl
 theorem poly0_ct_A (p : Poly0 K) (x : K) : (p.ctRun M x).A = Evaluate.evaluate (p.mapF abs) |x| := rfl
 theorem poly0_ct_ok (p : Poly0 K) (x : K) : (p.ctRun M x).ok = true := rfl
-/-- measured rounding depth of the generated degree-0 scheme -/
-theorem poly0_ct_k (p : Poly0 K) (x : K) : (p.ctRun M x).k = 0 := rfl
 theorem poly0_ct_e_sum (p : Poly0 K) (x : K) :
     (p.ctRun M x).e = p._0 := by
   show Evaluate.evaluate p x = _
@@ -244,8 +242,6 @@ theorem poly1_ct_e (p : Poly1 K) (x : K) : (p.ctRun M x).e = Evaluate.evaluate p
 theorem poly1_ct_a (p : Poly1 K) (x : K) : (p.ctRun M x).a = p.evalRounded M x := rfl
 theorem poly1_ct_A (p : Poly1 K) (x : K) : (p.ctRun M x).A = Evaluate.evaluate (p.mapF abs) |x| := rfl
 theorem poly1_ct_ok (p : Poly1 K) (x : K) : (p.ctRun M x).ok = true := rfl
-/-- measured rounding depth of the generated degree-1 scheme -/
-theorem poly1_ct_k (p : Poly1 K) (x : K) : (p.ctRun M x).k = 1 := rfl
 theorem poly1_ct_e_sum (p : Poly1 K) (x : K) :
     (p.ctRun M x).e = p._0.a0 + p._0.a1 * x := by
   show Evaluate.evaluate p x = _
@@ -263,8 +259,6 @@ theorem poly2_ct_e (p : Poly2 K) (x : K) : (p.ctRun M x).e = Evaluate.evaluate p
 theorem poly2_ct_a (p : Poly2 K) (x : K) : (p.ctRun M x).a = p.evalRounded M x := rfl
 theorem poly2_ct_A (p : Poly2 K) (x : K) : (p.ctRun M x).A = Evaluate.evaluate (p.mapF abs) |x| := rfl
 theorem poly2_ct_ok (p : Poly2 K) (x : K) : (p.ctRun M x).ok = true := rfl
-/-- measured rounding depth of the generated degree-2 scheme -/
-theorem poly2_ct_k (p : Poly2 K) (x : K) : (p.ctRun M x).k = 2 := rfl
 theorem poly2_ct_e_sum (p : Poly2 K) (x : K) :
     (p.ctRun M x).e = p._0.a0 + p._0.a1 * x + p._0.a2 * x ^ 2 := by
   show Evaluate.evaluate p x = _
@@ -282,8 +276,6 @@ theorem poly3_ct_e (p : Poly3 K) (x : K) : (p.ctRun M x).e = Evaluate.evaluate p
 theorem poly3_ct_a (p : Poly3 K) (x : K) : (p.ctRun M x).a = p.evalRounded M x := rfl
 theorem poly3_ct_A (p : Poly3 K) (x : K) : (p.ctRun M x).A = Evaluate.evaluate (p.mapF abs) |x| := rfl
 theorem poly3_ct_ok (p : Poly3 K) (x : K) : (p.ctRun M x).ok = true := rfl
-/-- measured rounding depth of the generated degree-3 scheme -/
-theorem poly3_ct_k (p : Poly3 K) (x : K) : (p.ctRun M x).k = 3 := rfl
 theorem poly3_ct_e_sum (p : Poly3 K) (x : K) :
     (p.ctRun M x).e = p._0.a0 + p._0.a1 * x + p._0.a2 * x ^ 2 + p._0.a3 * x ^ 3 := by
   show Evaluate.evaluate p x = _
@@ -301,8 +293,6 @@ theorem poly4_ct_e (p : Poly4 K) (x : K) : (p.ctRun M x).e = Evaluate.evaluate p
 theorem poly4_ct_a (p : Poly4 K) (x : K) : (p.ctRun M x).a = p.evalRounded M x := rfl
 theorem poly4_ct_A (p : Poly4 K) (x : K) : (p.ctRun M x).A = Evaluate.evaluate (p.mapF abs) |x| := rfl
 theorem poly4_ct_ok (p : Poly4 K) (x : K) : (p.ctRun M x).ok = true := rfl
-/-- measured rounding depth of the generated degree-4 scheme -/
-theorem poly4_ct_k (p : Poly4 K) (x : K) : (p.ctRun M x).k = 4 := rfl
 theorem poly4_ct_e_sum (p : Poly4 K) (x : K) :
     (p.ctRun M x).e = p._0.a0 + p._0.a1 * x + p._0.a2 * x ^ 2 + p._0.a3 * x ^ 3 + p._0.a4 * x ^ 4 := by
   show Evaluate.evaluate p x = _
@@ -320,8 +310,6 @@ theorem poly5_ct_e (p : Poly5 K) (x : K) : (p.ctRun M x).e = Evaluate.evaluate p
 theorem poly5_ct_a (p : Poly5 K) (x : K) : (p.ctRun M x).a = p.evalRounded M x := rfl
 theorem poly5_ct_A (p : Poly5 K) (x : K) : (p.ctRun M x).A = Evaluate.evaluate (p.mapF abs) |x| := rfl
 theorem poly5_ct_ok (p : Poly5 K) (x : K) : (p.ctRun M x).ok = true := rfl
-/-- measured rounding depth of the generated degree-5 scheme -/
-theorem poly5_ct_k (p : Poly5 K) (x : K) : (p.ctRun M x).k = 5 := rfl
 theorem poly5_ct_e_sum (p : Poly5 K) (x : K) :
     (p.ctRun M x).e = p._0.a0 + p._0.a1 * x + p._0.a2 * x ^ 2 + p._0.a3 * x ^ 3 + p._0.a4 * x ^ 4 + p._0.a5 * x ^ 5 := by
   show Evaluate.evaluate p x = _
@@ -339,8 +327,6 @@ theorem poly6_ct_e (p : Poly6 K) (x : K) : (p.ctRun M x).e = Evaluate.evaluate p
 theorem poly6_ct_a (p : Poly6 K) (x : K) : (p.ctRun M x).a = p.evalRounded M x := rfl
 theorem poly6_ct_A (p : Poly6 K) (x : K) : (p.ctRun M x).A = Evaluate.evaluate (p.mapF abs) |x| := rfl
 theorem poly6_ct_ok (p : Poly6 K) (x : K) : (p.ctRun M x).ok = true := rfl
-/-- measured rounding depth of the generated degree-6 scheme -/
-theorem poly6_ct_k (p : Poly6 K) (x : K) : (p.ctRun M x).k = 6 := rfl
 theorem poly6_ct_e_sum (p : Poly6 K) (x : K) :
     (p.ctRun M x).e = p._0.a0 + p._0.a1 * x + p._0.a2 * x ^ 2 + p._0.a3 * x ^ 3 + p._0.a4 * x ^ 4 + p._0.a5 * x ^ 5 + p._0.a6 * x ^ 6 := by
   show Evaluate.evaluate p x = _
@@ -358,8 +344,6 @@ theorem poly7_ct_e (p : Poly7 K) (x : K) : (p.ctRun M x).e = Evaluate.evaluate p
 theorem poly7_ct_a (p : Poly7 K) (x : K) : (p.ctRun M x).a = p.evalRounded M x := rfl
 theorem poly7_ct_A (p : Poly7 K) (x : K) : (p.ctRun M x).A = Evaluate.evaluate (p.mapF abs) |x| := rfl
 theorem poly7_ct_ok (p : Poly7 K) (x : K) : (p.ctRun M x).ok = true := rfl
-/-- measured rounding depth of the generated degree-7 scheme -/
-theorem poly7_ct_k (p : Poly7 K) (x : K) : (p.ctRun M x).k = 7 := rfl
 theorem poly7_ct_e_sum (p : Poly7 K) (x : K) :
     (p.ctRun M x).e = p._0.a0 + p._0.a1 * x + p._0.a2 * x ^ 2 + p._0.a3 * x ^ 3 + p._0.a4 * x ^ 4 + p._0.a5 * x ^ 5 + p._0.a6 * x ^ 6 + p._0.a7 * x ^ 7 := by
   show Evaluate.evaluate p x = _
@@ -377,8 +361,6 @@ theorem poly8_ct_e (p : Poly8 K) (x : K) : (p.ctRun M x).e = Evaluate.evaluate p
 theorem poly8_ct_a (p : Poly8 K) (x : K) : (p.ctRun M x).a = p.evalRounded M x := rfl
 theorem poly8_ct_A (p : Poly8 K) (x : K) : (p.ctRun M x).A = Evaluate.evaluate (p.mapF abs) |x| := rfl
 theorem poly8_ct_ok (p : Poly8 K) (x : K) : (p.ctRun M x).ok = true := rfl
-/-- measured rounding depth of the generated degree-8 scheme -/
-theorem poly8_ct_k (p : Poly8 K) (x : K) : (p.ctRun M x).k = 8 := rfl
 theorem poly8_ct_e_sum (p : Poly8 K) (x : K) :
     (p.ctRun M x).e = p._0.a0 + p._0.a1 * x + p._0.a2 * x ^ 2 + p._0.a3 * x ^ 3 + p._0.a4 * x ^ 4 + p._0.a5 * x ^ 5 + p._0.a6 * x ^ 6 + p._0.a7 * x ^ 7 + p._0.a8 * x ^ 8 := by
   show Evaluate.evaluate p x = _
